@@ -57,38 +57,46 @@ class TCPServer:
             client = parse_socket_addr(socket.family, socket.getpeername())
             server = parse_socket_addr(socket.family, socket.getsockname())
 
-            async with TaskGroup() as task_group:
-                self._task_group = task_group
-                self.protocol = ProtocolWrapper(
-                    self.app,
-                    self.config,
-                    self.context,
-                    task_group,
-                    ConnectionState(self.state.copy()),
-                    ssl,
-                    client,
-                    server,
-                    self.protocol_send,
-                    alpn_protocol,
-                )
-                try:
+            async with trio.open_nursery() as nursery:
+                finished = trio.Event()
+                nursery.start_soon(self._close_forcefully_if_cancelled, finished)
+                async with TaskGroup() as task_group:
+                    self._task_group = task_group
+                    self.protocol = ProtocolWrapper(
+                        self.app,
+                        self.config,
+                        self.context,
+                        task_group,
+                        ConnectionState(self.state.copy()),
+                        ssl,
+                        client,
+                        server,
+                        self.protocol_send,
+                        alpn_protocol,
+                    )
                     await self.protocol.initiate()
                     await self.idle_task.restart(self._task_group, self._idle_timeout)
                     await self._read_data()
-                except trio.Cancelled:
-                    # Cancelled (e.g. the graceful shutdown deadline has
-                    # passed), sends are shielded so one that is waiting
-                    # for a client that does not read would hold this up
-                    # for as long as the client likes - close forcefully.
-                    await trio.aclose_forcefully(self.stream)
-                    raise
-                # The peer is gone, do not wait for the keep alive timeout
-                self.reading = False
-                await self.idle_task.stop()
+                    # The peer is gone, do not wait for the keep alive timeout
+                    self.reading = False
+                    await self.idle_task.stop()
+                finished.set()
         except OSError:
             pass
         finally:
             await self._close()
+
+    async def _close_forcefully_if_cancelled(self, finished: trio.Event) -> None:
+        try:
+            await finished.wait()
+        except trio.Cancelled:
+            # Cancelled (e.g. the graceful shutdown deadline has
+            # passed), sends are shielded so one that is waiting for a
+            # client that does not read would hold this (the reading as
+            # well as the tasks that are waited for when it has ended)
+            # up for as long as the client likes - close forcefully.
+            await trio.aclose_forcefully(self.stream)
+            raise
 
     async def protocol_send(self, event: Event) -> None:
         if isinstance(event, RawData):
